@@ -77,8 +77,11 @@ def main():
             print('[%d] %s :: does not compile, skipped' % (n, desc), flush=True); continue
         truth = {}
         for p in sorted(props):
-            r = subprocess.run([exe, 'explore', p, str(secs), '1'], stdout=subprocess.PIPE, stderr=subprocess.PIPE, timeout=secs + 120)
-            truth[p] = bool(re.search(r'^WITNESS ', r.stdout.decode(), re.M))
+            try:
+                r = subprocess.run([exe, 'explore', p, str(secs), '1'], stdout=subprocess.PIPE, stderr=subprocess.PIPE, timeout=5 * secs + 120)
+                truth[p] = bool(re.search(r'^WITNESS ', r.stdout.decode(), re.M))
+            except subprocess.TimeoutExpired:
+                truth[p] = True    # the code under test hangs: certainly not the specified behaviour
         u = RV.run_unit(unit, 'quick', use_cache=True, log=lambda *a: None)
         precise = set(); vague = set(); hard = bool(u.hard); rl = False; degraded = bool(getattr(u, 'degraded', []))
         for f in u.failures:
